@@ -95,6 +95,30 @@ def run(ck):
     ck.ob('CACHE-key', mod.loc(mr), u(kwarg(c, 'cache')) == 'symmetry_cache' and u(single_def(mr, 'symmetry_cache')) == '{}',
           'the cache shared between the residues of one molecule starts empty', key='CACHE-key|fresh')
 
+    # symmetry constraints: only "representative before each other member of its coset", nothing among the other members
+    mkc = ism.func('ISMAGS._make_constraints')
+    ck.analysed(ism, mkc)
+    adds = stmts_with_env(mkc, lambda s_: isinstance(s_, ast.Expr) and isinstance(s_.value, ast.Call) and call_attr(s_.value) in ('add', 'update') and u(s_.value.func.value) == 'constraints')
+    ok = len(adds) == 1 and call_attr(adds[0][0].value) == 'add'
+    if ok:
+        st, cnd, e = adds[0]
+        lps = [l for l in ism.ancestors(st) if isinstance(l, ast.For)]
+        ok = len(lps) == 2 and u(lps[1].iter) == 'cosets.items()' and u(lps[0].iter) == u(lps[1].target.elts[1]) and \
+            u(st.value.args[0]) == '({}, {})'.format(u(lps[1].target.elts[0]), u(lps[0].target))
+        atoms = flow.atoms_of(cnd)
+        ok = ok and len(atoms) == 1 and list(atoms)[0][0] == 'Eq' and set(list(atoms)[0][1:]) == {u(lps[1].target.elts[0]), u(lps[0].target)} and \
+            flow.equivalent(cnd, flow.NOT(('atom', list(atoms)[0])))[0]
+    ck.ob('PROV-symmetry-constraints', ism.loc(mkc), ok, 'a coset {i: members} yields exactly the constraints (i, t) for every other member t -- the members are not ordered among themselves '
+          '(they need not stay interchangeable once i is fixed)', key='PROV-symmetry-constraints')
+    # _patch_modification: the new indices are assigned in the order the added atoms are united
+    pmf = mod.func('_patch_modification')
+    ck.analysed(mod, pmf)
+    na = single_def(pmf, 'non_anchor')
+    zips = [c for c in walk_local(pmf) if isinstance(c, ast.Call) and call_name(c) == 'zip' and c.args and 'range(' in u(c.args[1] if len(c.args) > 1 else c.args[0])]
+    ok = na is not None and isinstance(na, ast.Call) and call_name(na) in ('nx.subgraph', 'networkx.subgraph') and len(na.args) == 2 and len(zips) == 1 and \
+        u(zips[0].args[0]) == u(na.args[1]) and 'nx.disjoint_union(block, non_anchor)' in u(pmf)
+    ck.ob('SIB-index-space', mod.loc(pmf), ok, 'the atoms a modification adds are numbered by zipping the very collection `{}` whose subgraph view is united with the block '
+          '(both enumerate the same object, so added atom k gets index len(block)+k on both sides)'.format(u(na.args[1]) if ok else '?'), key='SIB-index-space|patch_modification')
     # ------------------------------------------------------------ canonical attributes onto matched atoms
     upd = stmts_with_env(rr, lambda s: isinstance(s, ast.Expr) and call_attr(s.value) == 'update' and u(s.value.func.value) == 'node' and u(s.value.args[0]) == 'ref_node')
     ok = len(upd) >= 1
